@@ -23,6 +23,7 @@ NOTES = {
  'C11': ('DESIGN.md 3/C11', 'real TorConfig bootstrapped against SimTor (vlib/simtor.py) through the real protocol; one option per declared type in states unset/one/two values with symbolic values; CONF_CHANGED / local edit / save sequences'),
  'C12': ('DESIGN.md 3/C12', 'list-recording transport double; oracle = reference decoder of tor kvline grammar; values <=3 (quick) / <=4 (thorough) chars over printable ASCII+TAB/CR/LF, 1-2 pairs'),
  'C13': ('DESIGN.md 3/C13', 'reply rendered by a reference encoder (control-spec) and delivered as whole lines through the real lineReceived; values <=3/4 chars printable ASCII; two known findings carved out and re-checked by witnesses'),
+ 'C14': ('DESIGN.md 3/C14', 'Ephemeral(Authenticated)OnionService.create on a TorConfig bootstrapped against SimTor; option product chosen by the solver per (version, key kind, clients) partition; ADD_ONION decoded by an independent control-spec 3.27 parser; key custody and DEL_ONION checked on the service object'),
  'C15': ('DESIGN.md 3/C15', 'EphemeralOnionService.create on a TorConfig bootstrapped against SimTor; HS_DESC event sequences (3 quick / 4 thorough) x own/foreign service x directories, ADD_ONION reply position and waiting mode symbolic; three-valued reference; foreign-UPLOADED completion is a listed known finding'),
  'C16': ('DESIGN.md 3/C16', 'documents built from a relay table by a reference builder; first via the real get_info_incremental(ns/all) reply path, later ones as real 650+NEWCONSENSUS events; one relay fully varied per document (presence, nickname, flags, a/w/p lines, bandwidth), a second sharing its nickname; identity codecs on 20-byte ids with one symbolic byte'),
  'C20': ('DESIGN.md 3/C20', 'datetime replaced by an int-backed shim validated against timedelta; integer-time task.Clock; TZ=UTC; <=3 steps, 2 names, offsets -10s..3d'),
